@@ -363,6 +363,7 @@ static int worker_main(const Scenario& sc, const Options& opt) {
             if (find_known(known, sc.id, v.key)) { emit("K " + std::to_string(idx) + " " + v.key); continue; }
             if (minimised_keys.count(v.key) || minimised_keys.size() >= 3) { emit("W " + std::to_string(idx) + " " + v.key); continue; }
             minimised_keys.insert(v.key);
+            { std::string m0 = v.msg; for (auto& ch : m0) if (ch == '\n') ch = ' '; emit("M " + std::to_string(idx) + " " + v.key + " " + m0); }
             int reruns = 0;
             Plan minimal = opt.no_minimise ? c.plan : minimise(sc, c.plan, c.sched_seed, v.key, &reruns);
             Outcome traced = execute(sc, minimal, c.sched_seed, true);
@@ -430,6 +431,8 @@ struct WorkerProc {
     std::string buf;
     std::int64_t current = -1;  // run being executed
     std::uint64_t next_start = 0;
+    std::int64_t minimising = -1;          // run whose violation the worker is reducing right now
+    std::string minimising_key, minimising_msg;
     bool done = false;
     int index = 0;
     int restarts = 0;
@@ -528,6 +531,18 @@ static std::string sanitizer_key(const std::string& prop, pid_t pid, std::string
             if (slash != std::string::npos) loc = loc.substr(slash + 1);
             const std::size_t colon2 = loc.find(':', loc.find(':') == std::string::npos ? 0 : loc.find(':') + 1);
             if (colon2 != std::string::npos) loc = loc.substr(0, colon2);
+            // prefer the innermost frame that lies in the repository (the SUMMARY names an interceptor such as memcpy otherwise)
+            if (loc.find(".cpp") == std::string::npos && loc.find(".hpp") == std::string::npos) {
+                const std::size_t rp = text.find("/repo/");
+                if (rp != std::string::npos && rp < p) {
+                    std::string rloc = text.substr(rp, text.find_first_of(" \n", rp) - rp);
+                    const std::size_t rs = rloc.rfind('/');
+                    if (rs != std::string::npos) rloc = rloc.substr(rs + 1);
+                    const std::size_t c2 = rloc.find(':', rloc.find(':') == std::string::npos ? 0 : rloc.find(':') + 1);
+                    if (c2 != std::string::npos) rloc = rloc.substr(0, c2);
+                    loc = rloc;
+                }
+            }
             key = "sanitizer." + kind + "@" + loc;
         } else if ((p = text.find("runtime error: ")) != std::string::npos) {
             const std::size_t ls = text.rfind('\n', p);
@@ -620,7 +635,9 @@ static int parent_main(const Scenario& sc, const Options& opt) {
             case 'X': { ++agg.harness_faults; agg.notes.push_back("harness: " + line.substr(2)); break; }
             case 'K': { std::uint64_t idx; std::string key; ls >> idx >> key; ++agg.known_hits[key]; break; }
             case 'W': { std::uint64_t idx; std::string key; ls >> idx >> key; ++agg.unknown_hits[key]; break; }
+            case 'M': { std::uint64_t idx; ls >> idx >> w.minimising_key; std::getline(ls, w.minimising_msg); w.minimising = static_cast<std::int64_t>(idx); break; }
             case 'V': {
+                w.minimising = -1;
                 Agg::Viol v; ls >> v.idx >> v.key >> v.path; std::getline(ls, v.msg);
                 ++agg.unknown_hits[v.key];
                 agg.viols.push_back(v);
@@ -673,7 +690,32 @@ static int parent_main(const Scenario& sc, const Options& opt) {
             if (key.empty()) key = "crash." + how;
             if (w.hung) { key = "hang.no_progress_in_repository_code"; detail = "the run made no progress for " + std::to_string(static_cast<int>(hang_secs)) + " s of wall time (busy loop outside the simulated kernel); worker killed"; }
             for (auto& ch : key) if (ch == ' ') ch = '_';
-            const std::int64_t idx = w.current;
+            std::int64_t idx = w.current;
+            if (idx < 0 && w.minimising >= 0) {
+                // A reduced variant of a violating plan killed the worker (a different failure class reached while
+                // shrinking). The violation itself stands: report it with the unreduced plan and carry on.
+                const std::uint64_t mi = static_cast<std::uint64_t>(w.minimising);
+                Case c = make_case(sc, opt.seed, mi, opt.tier, enumerated);
+                Violation v{w.minimising_key, w.minimising_msg};
+                Outcome dummy;
+                const std::string path = write_replay(sc, opt.seed, mi, c, c.plan, v, dummy, 0, "violation");
+                ++agg.unknown_hits[v.key];
+                agg.viols.push_back({mi, v.key, path, v.msg.substr(0, 300)});
+                agg.notes.push_back("worker " + std::to_string(w.index) + " died while reducing run " + std::to_string(mi) + " (" + (key.empty() ? how : key) + "); violation reported with the unreduced plan");
+                w.minimising = -1;
+                idx = static_cast<std::int64_t>(mi);
+                if (w.restarts < 50 && real_now() - t0 < opt.secs) {
+                    ++w.restarts;
+                    w.current = -1; w.done = false; w.hung = false; w.last_activity = real_now();
+                    auto args = base_args(w.index, mi + static_cast<std::uint64_t>(opt.workers) - static_cast<std::uint64_t>(w.index));
+                    if (!opt.no_minimise) args.push_back("--no-minimise");  // do not walk into the same death again
+                    w.pid = spawn_child(args, &w.fd, sc.id);
+                    if (w.pid < 0) --live;
+                } else {
+                    --live;
+                }
+                continue;
+            }
             if (idx < 0) {
                 agg.notes.push_back("worker " + std::to_string(w.index) + " died outside a run (" + how + ")");
                 ++agg.harness_faults;
